@@ -17,6 +17,7 @@ type Replay struct {
 	Property  string           `json:"property"`
 	Tier      string           `json:"tier"`
 	Seed      uint64           `json:"seed"`
+	Index     int              `json:"index"`
 	Overrides map[string][]int `json:"overrides"` // minimised draws per stream; a draw beyond a list is 0
 	Clause    string           `json:"clause"`
 	Sig       string           `json:"sig"`
@@ -62,6 +63,7 @@ type WorkerOut struct {
 	DetMismatch []string              `json:"det_mismatch"`
 	Samples     []RunResult           `json:"samples"`
 	Exhausted   bool                  `json:"exhausted"` // the scenario's finite space was enumerated completely
+	Gauges      map[string]int        `json:"gauges"`
 }
 
 func mix(a uint64, parts ...string) uint64 {
@@ -126,17 +128,17 @@ func countDraws(d map[string][]int) int {
 
 // minimise shrinks the recorded draws of a failing run stream by stream while
 // the same failure signature persists.
-func minimise(t *testing.T, sc *Scenario, tier string, first RunResult, sig string) *Replay {
+func minimise(t *testing.T, sc *Scenario, tier string, index int, first RunResult, sig string) *Replay {
 	cur := cloneDraws(first.Draws)
 	execs := 0
 	deadline := time.Now().Add(60 * time.Second)
 	try := func(d map[string][]int) (RunResult, bool) {
 		execs++
-		r := execRun(t, sc, tier, first.Seed, d)
+		r := execRun(t, sc, tier, first.Seed, index, d)
 		return r, hasSig(r, sig) && len(r.Infra) == 0
 	}
 	best, ok := try(cur)
-	rp := &Replay{Property: sc.ID, Tier: tier, Seed: first.Seed, Sig: sig, DrawsFrom: countDraws(cur)}
+	rp := &Replay{Property: sc.ID, Tier: tier, Seed: first.Seed, Index: index, Sig: sig, DrawsFrom: countDraws(cur)}
 	if !ok {
 		// cannot be reproduced from its own draws: report unminimised by seed only
 		rp.Overrides = nil
@@ -229,7 +231,7 @@ func RunWorker(t *testing.T) {
 			known[k] = true
 		}
 	}
-	wo := &WorkerOut{Prop: prop, Tier: tier, Worker: worker, Fired: map[string]int{}, Probes: map[string]int{}, Evals: map[string]int{}, Failures: map[string]*failGroup{}}
+	wo := &WorkerOut{Prop: prop, Tier: tier, Worker: worker, Fired: map[string]int{}, Probes: map[string]int{}, Evals: map[string]int{}, Failures: map[string]*failGroup{}, Gauges: map[string]int{}}
 	hashes := map[uint64]bool{}
 	t0 := time.Now()
 	baseG := runtime.NumGoroutine()
@@ -245,7 +247,14 @@ func RunWorker(t *testing.T) {
 		if e := os.Getenv("VERIF_RUNSEED"); e != "" {
 			seed, _ = strconv.ParseUint(e, 10, 64)
 		}
-		r := execRun(t, sc, tier, seed, nil)
+		nw := envInt("VERIF_NWORKERS", 1)
+		index := i*nw + worker
+		if sc.FixedSeed != nil && os.Getenv("VERIF_RUNSEED") == "" {
+			if fs, ok := sc.FixedSeed(tier, index, master); ok {
+				seed = fs
+			}
+		}
+		r := execRun(t, sc, tier, seed, index, nil)
 		wo.Runs++
 		wo.SimNS += r.SimNS
 		wo.Steps += int64(r.Steps)
@@ -254,6 +263,11 @@ func RunWorker(t *testing.T) {
 		mergeCounts(wo.Fired, r.Fired)
 		mergeCounts(wo.Probes, r.Probes)
 		mergeCounts(wo.Evals, r.Evals)
+		for k, v := range r.Gauges {
+			if v > wo.Gauges[k] {
+				wo.Gauges[k] = v
+			}
+		}
 		if r.Nontrivial {
 			wo.Nontrivial++
 			hashes[r.CaseHash] = true
@@ -266,7 +280,7 @@ func RunWorker(t *testing.T) {
 		}
 		// determinism sample: same seed again must give the same event log
 		if (i-start) < 3 || (i-start)%400 == 0 {
-			r2 := execRun(t, sc, tier, seed, nil)
+			r2 := execRun(t, sc, tier, seed, index, nil)
 			wo.DetChecked++
 			if r2.LogHash != r.LogHash || failSigs(r2) != failSigs(r) || r2.Steps != r.Steps {
 				if len(wo.DetMismatch) < 5 {
@@ -288,9 +302,9 @@ func RunWorker(t *testing.T) {
 				g = &failGroup{Sig: f.Sig, Clause: f.Clause, Known: known[f.Sig]}
 				wo.Failures[f.Sig] = g
 				if !g.Known && len(wo.Failures) <= 6 {
-					g.Replay = minimise(t, sc, tier, r, f.Sig)
+					g.Replay = minimise(t, sc, tier, index, r, f.Sig)
 				} else {
-					g.Replay = &Replay{Property: prop, Tier: tier, Seed: seed, Clause: f.Clause, Sig: f.Sig, Msg: f.Msg, LogHash: r.LogHash, Desc: r.Desc, Trace: r.Trace, Fired: r.Fired}
+					g.Replay = &Replay{Property: prop, Tier: tier, Seed: seed, Index: index, Clause: f.Clause, Sig: f.Sig, Msg: f.Msg, LogHash: r.LogHash, Desc: r.Desc, Trace: r.Trace, Fired: r.Fired}
 				}
 			}
 			g.Count++
@@ -340,7 +354,7 @@ func runReplay(t *testing.T, sc *Scenario, path, out string) {
 	if tier == "" {
 		tier = "quick"
 	}
-	r := execRun(t, sc, tier, rp.Seed, rp.Overrides)
+	r := execRun(t, sc, tier, rp.Seed, rp.Index, rp.Overrides)
 	res := map[string]any{
 		"property": rp.Property, "sig": rp.Sig, "reproduced": hasSig(r, rp.Sig),
 		"log_hash_expected": rp.LogHash, "log_hash": r.LogHash, "same_log": r.LogHash == rp.LogHash,
